@@ -29,6 +29,10 @@ func runC17(c *Ctx) {
 	ruleGoCapture(c)             // the reply to BDAT LAST carries the error THIS message's Data returned: the goroutine reports through the channel it captured
 	ruleClientDeadlinesPaired(c) // the client waits for the Data verdict under the submission timeout, not the command timeout
 	ruleWriteDeadlineOwner(c)    // a verdict that takes the backend longer than ReadTimeout is still written
+	// the client hands each per-recipient verdict to the recipient it belongs to: Close reads one LMTP reply per recorded
+	// recipient, so a recipient recorded without having been accepted shifts every later verdict by one
+	R.Rule("R-recipients-as-accepted", "E1/E2", "the client records a recipient exactly when the server accepted its RCPT: Close waits for one LMTP reply per recorded recipient and returns their verdicts", 2)
+	ruleRcptsRecorded(c)
 	// the error reported for a failed chunk is the one the pipe copy returned — the backend's own error comes back that
 	// way (r.CloseWithError) — and "unexpected EOF" stands in only when the copy returned none
 	R.Rule("R-chunk-error-kept", "E3 guard facts", "handleBdat replaces the chunk copy's error by io.ErrUnexpectedEOF only where that error is nil", 1)
